@@ -471,7 +471,13 @@ class String(FieldValidator[_P, str], Generic[_P]):
 
         if _VALIDATION_ENABLED.get():
             self.validate_one(value)
-        setattr(obj, self._private_name, value.encode("ascii"))
+        data = value.encode("ascii")
+        if self.len > 1 and len(data) < self.len:
+            # ctypes copies only the new bytes and one NUL: clear the char array first so
+            # that no stale bytes of a previous longer value remain after the terminator
+            fld = getattr(type(obj), self._private_name)
+            ctypes.memset(ctypes.addressof(obj) + fld.offset, 0, fld.size)
+        setattr(obj, self._private_name, data)
 
     def validate_one(self, value: str):
         """Validate a string value
